@@ -110,7 +110,8 @@ for d in sorted(glob.glob(os.path.join(ROOT, "seeded", "*-*"))):
     rows.append((os.path.basename(d), m["result"], m["first_failure"], m.get("needs_to_manifest", "")))
 with open(os.path.join(ROOT, "seeded", "RESULTS.md"), "w") as f:
     f.write("# Seeded changes (written by independent sub-agents that saw only the property text) vs the quick checks\n\n"
-            "Round 1: <ID>-A, <ID>-B. Round 2 (agents were told round 1's ideas and asked for different ones): <ID>-C, <ID>-D.\n"
+            "Round 1: <ID>-A, <ID>-B. Rounds 2, 3, 4 (agents were told all earlier ideas and asked for different ones that need something rarer): "
+            "<ID>-C/-D, <ID>-E/-F, <ID>-G/-H.\n"
             "Each was confirmed by tools/seedverify.sh (applies to a scratch worktree, builds with and without the verif tag, "
             "baseline 48 of 48, demo fails with / passes without the change) and then run against ./check <ID> --tier quick.\n\n"
             "| seed | result | first failure reported | needs (agent's words) |\n|---|---|---|---|\n")
